@@ -171,7 +171,8 @@ class State:
         STATS['entail_calls'] += 1
         STATS['entail_time'] += time.time() - t0
         res = str(r)
-        _ENTAIL_CACHE[key] = res
+        if res != 'unknown' or timeout_ms >= 10000:
+            _ENTAIL_CACHE[key] = res
         _KEEP.append(fs)
         return res
 
@@ -180,7 +181,12 @@ class State:
             return True
         if z3.is_false(cond):
             return False
-        return self.check(neg(cond)) == 'unsat'
+        r = self.check(neg(cond))
+        if r == 'unknown':
+            # a busy machine must not flip a decision of the symbolic
+            # execution: one retry with a 5x budget
+            r = self.check(neg(cond), timeout_ms=10000)
+        return r == 'unsat'
 
     def feasible(self):
         """path pruning: first without the spec unfoldings (cheap; an unsat
